@@ -260,6 +260,14 @@ class MibCompiler(object):
                             if processed.get(mibname) == statusFailed:
                                 del processed[mibname]
 
+                        if mibInfo.name != mibname and mibInfo.name in failedMibs:
+                            # this module was asked for by its own name
+                            # before and could not be had then
+                            del failedMibs[mibInfo.name]
+
+                            if processed.get(mibInfo.name) in (statusFailed, statusMissing):
+                                del processed[mibInfo.name]
+
                         mibsToParse.extend(mibInfo.imported)
 
                         if fileInfo.name in mibnames:
